@@ -192,11 +192,58 @@ def _dedupe(ps):
     return out
 
 
+# definitional atoms: name -> (op, Poly a, Poly b); their value is computed from the other atoms during witness search
+DEFS = {}
+
+
+def defined_atom(op, a, b):
+    name = '%s(%s,%s)' % (op, a, b)
+    DEFS[name] = (op, _p(a), _p(b))
+    return name
+
+
+def eval_def(name, val):
+    op, a, b = DEFS[name]
+    av, bv = a.eval(val), b.eval(val)
+    if bv <= 0 or av < 0:
+        return None
+    if op == 'mod':
+        return av % bv
+    if op in ('div', 'floordiv'):
+        return av // bv
+    if op == 'ceildiv':
+        return -((-av) // bv)
+    return None
+
+
 def find_witness(neg_goal, facts, dom=4, max_atoms=7, opaque=lambda a: a.startswith('?'), order=None):
     """Search a valuation of the atoms (0..dom) satisfying every fact connected to neg_goal
     and neg_goal >= 0.  Returns dict or None; returns 'opaque' when an opaque atom is
     involved, 'toomany' when more than max_atoms atoms are connected."""
     neg_goal = _p(neg_goal)
+    # Fourier-Motzkin style elimination of opaque atoms that occur linearly and with one sign only (and not in the goal):
+    # such facts do not restrict the other atoms (choose the opaque value large/small enough), so they can be dropped
+    # without enlarging the projection of the state onto the remaining atoms.
+    facts = list(facts)
+    goal_atoms = neg_goal.atoms()
+    progress = True
+    while progress:
+        progress = False
+        opq = {a for f in facts for a in f.atoms() if opaque(a) and a not in goal_atoms}
+        for o in sorted(opq):
+            fs = [f for f in facts if o in f.atoms()]
+            signs = set()
+            lin = True
+            for f in fs:
+                c = f.coeff(o)
+                if c is None or c.const_value() is None:
+                    lin = False
+                    break
+                signs.add(c.const_value() > 0)
+            if lin and len(signs) == 1:
+                facts = [f for f in facts if o not in f.atoms()]
+                progress = True
+                break
     atoms = set(neg_goal.atoms())
     conn = []
     changed = True
@@ -212,7 +259,7 @@ def find_witness(neg_goal, facts, dom=4, max_atoms=7, opaque=lambda a: a.startsw
                     changed = True
     if any(opaque(a) for a in atoms):
         return 'opaque'
-    if len(atoms) > max_atoms:
+    if len([a for a in atoms if a not in DEFS]) > max_atoms:
         return 'toomany'
     # facts not connected to the goal must still be satisfiable on their own (small, non-opaque components are
     # checked by enumeration; others are assumed satisfiable: they come from a path the engine kept as feasible)
@@ -244,11 +291,35 @@ def find_witness(neg_goal, facts, dom=4, max_atoms=7, opaque=lambda a: a.startsw
                 break
         if not sat:
             return None
-    al = sorted(atoms)
+    defs = [a for a in atoms if a in DEFS]
+    # the arguments of definitional atoms must be valued too
+    for d in defs:
+        for x in DEFS[d][1].atoms() | DEFS[d][2].atoms():
+            if x not in atoms:
+                atoms.add(x)
+    if any(opaque(a) for a in atoms):
+        return 'opaque'
+    al = sorted(a for a in atoms if a not in DEFS)
+    if len(al) > max_atoms:
+        return 'toomany'
     if order:
         al = order(al)
+    # nested definitions are resolved in name-length order (arguments are shorter than the atoms built from them)
+    dl = sorted([a for a in atoms if a in DEFS], key=len)
     for vals in itertools.product(range(dom + 1), repeat=len(al)):
         v = dict(zip(al, vals))
+        ok = True
+        for d in dl:
+            try:
+                x = eval_def(d, v)
+            except KeyError:
+                x = None
+            if x is None:
+                ok = False
+                break
+            v[d] = x
+        if not ok:
+            continue
         if neg_goal.eval(v) < 0:
             continue
         if all(f.eval(v) >= 0 for f in conn):
